@@ -547,8 +547,42 @@ def check_consume(ctx):
                   sample='if %s > 0' % ov)
 
 
-def run(ctx, slices=True, unique=True, provenance=True, window=True, prune=True, consume=True):
+def check_probe_side(ctx):
+    """every worker probes the index built over the LEFT table with the tokens (or token count) of the current RIGHT row"""
+    from ..side import expr_side, sides
+    repo = ctx.repo
+    n = 0
+    for f in repo.all_funcs():
+        if f.module.relpath.endswith('disk_edit_distance_join.py'):
+            continue
+        view = None
+        for c in repo.calls_in(f):
+            if not (isinstance(c.func, ast.Attribute) and c.func.attr == 'find_candidates' and len(c.args) == 2):
+                continue
+            view = view or view_of(f)
+            st = view.stmt_of(c)
+            n += 1
+            probe, index = c.args
+            px = view.expand(probe, st)
+            ok = expr_side(probe) == 'R' or (expr_side(probe) is None and expr_side(px) == 'R')
+            ctx.check('R-CAND/probe-side', f, 'probe of %s' % U(c.func)[:40], ok,
+                      'the index is probed with `%s` (= %s): it must be probed with the tokens of the current right row'
+                      % (U(probe)[:50], U(px)[:80]), c, sample='probe %s' % U(probe)[:40])
+            ix = view.expand(index, st)
+            l, r = sides(ix)
+            # the index object: built from the left table only
+            ctor = [x for x in ast.walk(ix) if isinstance(x, ast.Call) and isinstance(x.func, ast.Name) and x.func.id.endswith('Index')]
+            oki = bool(ctor) and all(expr_side(x.args[0]) == 'L' for x in ctor if x.args)
+            ctx.check('R-CAND/probe-side', f, 'index of %s' % U(c.func)[:40], oki,
+                      'the probed index `%s` is not built over the left table (%s)' % (U(index)[:40], U(ix)[:100]), c,
+                      sample='index %s over the left table' % U(index)[:40])
+    ctx.floor('R-CAND/probe-side', n, 7, 'find_candidates call sites')
+
+
+def run(ctx, slices=True, unique=True, provenance=True, window=True, prune=True, consume=True, probe=True):
     ctx.group('R-CAND')
+    if probe:
+        check_probe_side(ctx)
     if slices:
         check_slices(ctx)
     if unique:
